@@ -12,7 +12,7 @@ import ast
 from ..core import rule, AnalysisError
 from ..engine import pattern as P
 from ..engine.facts import dotted, const, src, walk_func, enclosing_stmt
-from .common import calls
+from .common import calls, pn, access_paths
 
 
 def _component(e):
@@ -130,16 +130,18 @@ def wrap_order(ctx):
     db = ctx.db
     fn = db.func("codegen._GenerateRenderMethod.create_filter_callable")
     loops = [n for n in fn.body if isinstance(n, ast.For)]
-    ctx.require(loops and src(loops[0].iter) == "args", "create_filter_callable: `for e in args` not found")
+    argsp, targetp = pn(fn, 1), pn(fn, 2)
+    ctx.require(loops and src(loops[0].iter) == argsp and isinstance(loops[0].target, ast.Name), "create_filter_callable: `for e in args` not found")
     lp = loops[0]
-    tg = [s for s in ast.walk(lp) if isinstance(s, ast.Assign) and src(s.targets[0]) == "target"]
-    ok = bool(tg) and isinstance(tg[-1].value, ast.BinOp) and const(tg[-1].value.left) == "%s(%s)" and src(tg[-1].value.right).replace(" ", "") == "(e,target)"
+    ev = lp.target.id
+    tg = [s for s in ast.walk(lp) if isinstance(s, ast.Assign) and src(s.targets[0]) == targetp]
+    ok = bool(tg) and any(n_ is tg[-1] for n_, _e in P.find(lp, "%s = '%%s(%%s)' %% (%s, %s)" % (targetp, ev, targetp)))
     ctx.check(ok, "fold", db.where(lp), "the fold is `%s`: the previous target must be the argument of the next filter" % (src(tg[-1]) if tg else None), 'target = "%s(%s)" % (e, target)')
     ctx.check(tg and tg[-1] in lp.body, "fold-every-filter", db.where(lp), "the fold is conditional", "applied for every filter")
     first = lp.body[0]
-    ctx.check(isinstance(first, ast.If) and src(first.test) == "e == 'n'" and isinstance(first.body[0], ast.Continue), "n-skipped", db.where(lp), "`n` is not skipped", "`n` never emitted")
+    ctx.check(isinstance(first, ast.If) and P.has(first.test, "%s == 'n'" % ev) and isinstance(first.body[0], ast.Continue), "n-skipped", db.where(lp), "`n` is not skipped", "`n` never emitted")
     rets = [r for r in fn.body if isinstance(r, ast.Return)]
-    ctx.check(bool(rets) and src(rets[-1].value) == "target", "returns-target", db.where(fn), "returns %s" % (src(rets[-1].value) if rets else None), "returns the folded target")
+    ctx.check(bool(rets) and src(rets[-1].value) == targetp, "returns-target", db.where(fn), "returns %s" % (src(rets[-1].value) if rets else None), "returns the folded target")
     le = db.func("codegen._GenerateRenderMethod.create_filter_callable.locate_encode")
     t = src(le)
     ctx.check(P.has(le, "'filters.' + $n") and P.has(le, "filters.DEFAULT_ESCAPES.get($n, $n)") and "decode" in t, "locate", db.where(le), "locate_encode no longer maps decode.<enc> to filters.decode.<enc> and other names through DEFAULT_ESCAPES (unknown names unchanged)", "decode.x -> filters.decode.x ; flag -> DEFAULT_ESCAPES ; other name unchanged")
